@@ -609,6 +609,8 @@ def catalogue(thorough):
         ("two-endpoints-contacts", "2c2e", i0, [R1, R2, {"do": "contacts", "value": b}, R1]),
         ("same-endpoint-other-cert", "2c1e", i0, [R1, {"do": "both", "contacts": b, "key": "rsa2048"}, R2]),
         ("restart-only", "1c1e", i0, [R1, {"do": "restart"}, {"do": "restart"}, R1]),
+        # a key-type edit that keeps the signature algorithm (both RSA sizes sign RS256)
+        ("key-same-alg", "1c1e", dict(i0, key_type="rsa2048"), [R1, {"do": "key", "value": "rsa4096"}, R1]),
     ]
     if thorough:
         H += [
